@@ -162,3 +162,44 @@ def ulps(x, k=4):
     if math.isinf(x) or math.isnan(x):
         return 0.0
     return k * (math.nextafter(x, math.inf) - x)
+
+
+# --------------------------------------------------------------------------- #
+# scale ladder: a few much larger, fully deterministic datasets
+# --------------------------------------------------------------------------- #
+LADDER_QUICK = [17, 64, 101, 257, 1000, 4097]
+LADDER_THOROUGH = [17, 33, 64, 100, 101, 128, 255, 257, 513, 1000, 1025, 4097, 20001, 100003]
+
+
+def ladder_dataset(n, tie_free=False, salt=0):
+    """
+    n positives and about 0.8*n negatives with overlapping ranges; values are multiples of 1/8 produced by a
+    multiplicative hash (ties within and across classes unless tie_free). Bounded exhaustive enumeration stops at a
+    handful of scores; the ladder probes sizes around typical internal switches (powers of two, 100, 1000, 10^5).
+    """
+    m = max(1, (4 * n) // 5)
+    if tie_free:
+        # distinct values: positives on odd multiples of 1/8 shifted up, negatives on even multiples
+        pos = [((i * 2654435761 + salt) % (8 * n)) * 2 + 1 for i in range(n)]
+        neg = [((i * 40503 + 7 * salt) % (8 * n)) * 2 for i in range(m)]
+        pos, neg = sorted(set(pos)), sorted(set(neg))
+        pos = [(v + 4 * n) / 8.0 for v in pos]
+        neg = [v / 8.0 for v in neg]
+        return pos, neg
+    span = max(8, n // 2)
+    pos = [(((i * 2654435761 + salt) >> 3) % span + span // 3) / 8.0 for i in range(n)]
+    neg = [(((i * 40503 + 11 + salt) >> 2) % span) / 8.0 for i in range(m)]
+    return pos, neg
+
+
+def ladder_thresholds(pos, neg, k=24):
+    """About 4k thresholds spread over the value range: scores at quantile positions, ulp neighbours, midpoints."""
+    vals = sorted(set(pos) | set(neg))
+    picks = sorted({vals[(len(vals) - 1) * j // max(1, k - 1)] for j in range(k)})
+    out = [-math.inf, picks[0] - 1.0]
+    for i, v in enumerate(picks):
+        out += [math.nextafter(v, -math.inf), v, math.nextafter(v, math.inf)]
+        if i + 1 < len(picks):
+            out.append((v + picks[i + 1]) / 2.0)
+    out += [picks[-1] + 1.0, math.inf]
+    return out
